@@ -11,11 +11,11 @@ CONSTANTS
   AlignC = {"center"}
   CfgNilC = {TRUE}
   PageC = {"SetPageMargins"}
-  ViaC = {"mem"}
+  ViaC = {"mem", "word"}
   RViaC = {"doc"}
   DataC = {"def"}
   LastC = {}
   Design = "replace"
 INVARIANTS Inv_C11 Inv_Wf
-PROPERTIES Act_Current Act_Frame Act_Flags Act_Survive
+PROPERTIES Act_Current Act_Frame Act_Flags Act_Survive Act_Names
 CHECK_DEADLOCK FALSE
